@@ -24,6 +24,11 @@ def install_cuts(E):
     def _convert_arr_to_pandas_series(self, arr, orig_type, index):
         return FakeSeries(arr, index)
 
+    def _get_row_selection(self, values, ilocs, keep_input_index=False, n=None):
+        """cut: the positional take / index restoration is pandas code; the positions are the result"""
+        return FakeSeries(ilocs.ravel() if hasattr(ilocs, "ravel") else ilocs, None)
+
+    GB._get_row_selection = _get_row_selection
     GB._preprocess_arguments = _preprocess_arguments
     GB._convert_arr_to_pandas_series = _convert_arr_to_pandas_series
     GB._values_is_polars = staticmethod(lambda type_list: False)
